@@ -343,6 +343,17 @@ def direct(seed, tier, model, stats):
             with np.errstate(all="ignore"):
                 pass
             d = check_shape(name, args, SR, n)
+            if d is None and i % 3 == 0:
+                # what a shape returns belongs to the caller: rescale it in place, the next call is unaffected
+                SRa = int(SR) if float(SR).is_integer() and i % 2 else SR
+                y1 = getattr(PA, name)(*args, SRa, n)
+                keep = np.array(y1, dtype=float, copy=True)
+                if isinstance(y1, np.ndarray) and y1.flags.writeable:
+                    y1 += 0.05
+                    y1[: max(1, n // 2)] = 1.0
+                y2 = np.asarray(getattr(PA, name)(*args, SRa, n), dtype=float)
+                if y2.shape != keep.shape or not np.array_equal(y2, keep):
+                    d = f"PulseAtoms.{name}: the same call returns other values after the caller wrote into the array it got the first time"
         except Exception as e:  # noqa: BLE001 -- the shape itself raised
             d = f"PulseAtoms.{name} raised {type(e).__name__}: {e}"
         tested["closed_form"] += 1
